@@ -408,6 +408,62 @@ SHAPES_THOROUGH = SHAPES_QUICK + ["record/ostree_ok", "match_products/base_setti
                                   "record_start/collision", "run/collision_products", "run/base_setting", "run/timeout"]
 
 
+def sequence_cases():
+    """The same library call made twice in one process from two DIFFERENT working directories (same base path, same
+    options): after each call the process is where it was before THAT call - not where an earlier call was made from."""
+    import in_toto.runlib as rl
+    import in_toto.settings as st
+    from in_toto.models.link import Link
+    logging.getLogger("in_toto").setLevel(logging.CRITICAL)
+    res = core.Result()
+    root = tempfile.mkdtemp(prefix="verif-c15q-")
+    cwd0 = os.getcwd()
+    saved = {k: getattr(st, k) for k in dir(st) if k.isupper()}
+    k = W.pool()[0]
+    try:
+        setup_tree(root)
+        base = os.path.join(root, "base")
+        dirs = [os.path.join(root, "from-a"), os.path.join(root, "from-b")]
+        for d_ in dirs:
+            os.makedirs(d_)
+        calls = {
+            "record/base_arg": lambda: rl.record_artifacts_as_dict(["."], base_path=base),
+            "record/collision": lambda: rl.record_artifacts_as_dict(["x", "sub/y"], base_path=base, lstrip_paths=["x", "sub/y"]),
+            "record/ostree_missing_ref": lambda: rl.record_artifacts_as_dict(["ostree:main"], base_path=base),
+            "run": lambda: rl.in_toto_run("sq", ["."], ["."], [sys.executable, "-c", "pass"], base_path=base, signer=k.signer),
+            "record_start": lambda: rl.in_toto_record_start("sq2", ["."], base_path=base, signer=k.signer),
+            "match_products": lambda: rl.in_toto_match_products(Link(name="l", products={}), paths=["."]),
+        }
+        for name, call in sorted(calls.items()):
+            for rnd, d_ in enumerate(dirs + dirs[:1]):
+                os.chdir(d_)
+                if name == "match_products":
+                    st.ARTIFACT_BASE_PATH = base
+                raised = None
+                try:
+                    with contextlib.redirect_stdout(io.StringIO()), contextlib.redirect_stderr(io.StringIO()):
+                        call()
+                except Exception as e:  # pylint: disable=broad-except
+                    raised = type(e).__name__
+                here = os.getcwd()
+                st.ARTIFACT_BASE_PATH = saved.get("ARTIFACT_BASE_PATH")
+                ok = os.path.realpath(here) == os.path.realpath(d_)
+                case = {"op": "call_sequence", "call": name, "round": rnd, "called_from": os.path.basename(d_), "raised": raised}
+                res.case(dict(case, cwd_after=os.path.basename(here)), True, ok, sample_cap=1)
+                res.count("sequence_" + name.split("/")[0])
+                if not ok:
+                    res.fail("oracle", case, {"why": "after the call the working directory is %s, the call was made from %s" % (here, d_)})
+                for f_ in os.listdir(d_):
+                    if f_.endswith(".link") or f_.endswith("-unfinished"):
+                        os.remove(os.path.join(d_, f_))
+    finally:
+        for k_, v in saved.items():
+            setattr(st, k_, v)
+        os.chdir(cwd0)
+        shutil.rmtree(root, ignore_errors=True)
+    return res
+
+
 def cli_state_cases():
     """Every command-line front end, called in-process through its main() with ordinary and with slightly unusual
     arguments (a link file whose name the default exclude patterns do not cover, no --exclude, a failing command, a
@@ -486,6 +542,7 @@ def c18_pub(k, d):
 def run(tier, seed):
     shards = [(run_shape, (s,)) for s in (SHAPES_QUICK if tier == "quick" else SHAPES_THOROUGH)]
     shards.append((cli_state_cases, ()))
+    shards.append((sequence_cases, ()))
     return core.parallel(core.call, shards)
 
 
